@@ -50,6 +50,13 @@ def gen_probe(src, info):
     k = {}
     if src.chance(1, 10):
         k["_if"] = src.chance(1, 2)
+    if src.chance(1, 12):
+        # _if=False must be a no-op even when evaluating the call would fail
+        a = src.pick(names)
+        T = attrs[a]["type"]
+        if T[0] == "spec" and src.chance(1, 2):
+            return {"t": "call", "m": f"update_{a}", "a": [], "k": {"_if": False, ("a" if T[1] == "U" else "v"): "not-an-int"}, "form": "if_false_failing"}
+        return {"t": "call", "m": f"{src.pick(['transform', 'transform', 'with', 'update'])}_{a}", "a": [["$fn", "boom", 0]], "k": {"_if": False}, "form": "if_false_failing"}
     if m <= 3:
         a = src.pick(names)
         T = attrs[a]["type"]
@@ -262,6 +269,9 @@ def run_case(ctx, case):
         ctx.fail(f"{route}|copy_vs_inplace_outcome", case, f"copy form -> {oa} {ra!r}; in-place form -> {ob} {rb!r}")
         return
     noop = probe["k"].get("_if") is False
+    if noop and oa != "ok":
+        ctx.fail(f"{route}|if_false_raised:{type(ra).__name__}", case, f"{base} has _if=False and must be a no-op, but raised {ra!r}")
+        return
     if oa == "ok":
         if not hasattr(ra, "__spec_class__"):
             ctx.fail(f"{route}|result_type", case, f"{base} returned {ra!r}")
